@@ -482,9 +482,80 @@ func (c *ctx) apiFacts() *leanFile {
 	l.p("/-- has `if qy == nil { return nil, <error> }` -/\ndef compileNilCheck : List (String × Bool) := %s\n", leanList(q))
 	l.p("/-- MustCompile returns &Expr{…, q: nopQuery{}} on error -/\ndef mustCompileRecoversToNop : Bool := %s\n", leanBool(mustNop))
 	l.p("/-- type switch arms inside the deferred recover of func build -/\ndef recoverArms : List String := %s\n", leanStrList(arms))
-	c.facts["apiFacts"] = map[string]interface{}{
+
+	// what runs in Compile / CompileWithNS / MustCompile OUTSIDE func build (whose deferred recover turns panics into
+	// errors) must not be able to panic: constructs that can (indexing, slicing, unchecked type assertions,
+	// division, explicit panic, calls out of a small allowlist), in these functions and in the package functions they
+	// call (other than build), three levels deep
+	risky := c.unprotectedRisks([]string{"Compile", "CompileWithNS", "MustCompile"})
+	l.p("\n/-- constructs that can panic in the compile entry points outside build's recover (function:construct) -/\ndef compileUnprotectedRisks : List String := %s\n", leanStrList(risky))
+	c.facts["apiFacts"] = map[string]interface{}{"compileUnprotectedRisks": risky,
 		"selectClones": selectClones, "evaluateClonesBeforeEval": clonesBefore, "evaluateIterClones": iterClones,
 		"compileNilCheck": checks, "mustCompileRecoversToNop": mustNop, "recoverArms": arms,
 	}
 	return l
+}
+
+// unprotectedRisks: see the call site.  Conservative and syntactic.
+func (c *ctx) unprotectedRisks(entries []string) []string {
+	allowed := map[string]bool{"errors.New": true, "fmt.Errorf": true, "fmt.Sprintf": true, "build": true, "len": true, "string": true}
+	seen := map[string]bool{}
+	var out []string
+	var visit func(name string, depth int)
+	visit = func(name string, depth int) {
+		if seen[name] {
+			return
+		}
+		seen[name] = true
+		fd := c.funcDecl("", name)
+		if fd == nil || fd.Body == nil {
+			out = append(out, name+":unknown-function")
+			return
+		}
+		add := func(what string) { out = append(out, name+":"+what) }
+		ast.Inspect(fd.Body, func(n ast.Node) bool {
+			switch x := n.(type) {
+			case *ast.FuncLit:
+				add("function-literal")
+				return false
+			case *ast.IndexExpr:
+				add("index")
+			case *ast.SliceExpr:
+				add("slice")
+			case *ast.StarExpr:
+				add("dereference")
+			case *ast.TypeAssertExpr:
+				add("type-assertion")
+			case *ast.GoStmt, *ast.DeferStmt:
+				add("go/defer")
+			case *ast.BinaryExpr:
+				if x.Op == token.QUO || x.Op == token.REM || x.Op == token.SHL || x.Op == token.SHR {
+					add("division-or-shift")
+				}
+			case *ast.CallExpr:
+				callee := squeeze(c.src(x.Fun))
+				if callee == "panic" {
+					add("panic")
+				} else if allowed[callee] {
+					// fine
+				} else if id, ok := unparen(x.Fun).(*ast.Ident); ok && c.funcDecl("", id.Name) != nil {
+					if depth >= 3 {
+						add("call-too-deep:" + id.Name)
+					} else {
+						visit(id.Name, depth+1)
+					}
+				} else if _, isLit := unparen(x.Fun).(*ast.Ident); isLit && (callee == "Expr" || callee == "nopQuery") {
+					// conversion
+				} else {
+					add("call:" + callee)
+				}
+			}
+			return true
+		})
+	}
+	for _, e := range entries {
+		visit(e, 0)
+	}
+	sort.Strings(out)
+	return out
 }
